@@ -81,6 +81,24 @@ Section PrivIter.
     end.
   Definition drain (it : iter) := drain_loop (S (length (rem it))) it.
 
+  (* The same with include_private set before every len()/next() following a
+     schedule (then left as it is). *)
+  Fixpoint drain_sched (fuel : nat) (it : iter) (sched : list bool) : option (list (Z * A) * Z) :=
+    match fuel with
+    | O => None
+    | S f =>
+        let it1 := match sched with b :: _ => include_private it b | [] => it end in
+        match it_next it1 with
+        | Panic => None
+        | Exhausted it' => Some ([], it_len it')
+        | Yield x it' =>
+            match drain_sched f it' (tl sched) with
+            | None => None
+            | Some (tr, fin) => Some ((it_len it1, x) :: tr, fin)
+            end
+        end
+    end.
+
   (* Specification of the trace for an exact-size iterator over [l]. *)
   Fixpoint countdown (l : list A) : list (Z * A) :=
     match l with
@@ -94,4 +112,4 @@ Arguments rem {A}. Arguments l_np {A}. Arguments l_p {A}. Arguments incl {A}.
 Arguments it_len {A}. Arguments it_next {A}. Arguments include_private {A}.
 Arguments Exhausted {A}. Arguments Yield {A}. Arguments Panic {A}.
 Arguments pending {A}. Arguments countp {A}. Arguments Inv {A}.
-Arguments drain {A}. Arguments drain_loop {A}. Arguments countdown {A}. Arguments next_loop {A}.
+Arguments drain {A}. Arguments drain_sched {A}. Arguments drain_loop {A}. Arguments countdown {A}. Arguments next_loop {A}.
